@@ -31,11 +31,11 @@ impl Check for HistCheck {
         600
     }
     fn rule(&self) -> String {
-        let common = "generated operation histories on one Nucleo (1-4 worker threads, 1-3 columns, generated Config fixed per history): push / bulk push (crossing the 1024/2048 bucket boundaries) / writer threads held inside their fill callback (between index reservation and publication) / held extends / release, pattern edits (append char, delete last, replace, clear; append flag set exactly when the old text is a prefix), tick(0|1|10), restart(true|false), injector()/clone/drop (also on other threads), old injectors pushing, run held at / advanced to each of 7 phases through cfg-gated hook points, scoring of one item held inside the parallel scan, adversarial ordering of in-flight pushes of two pool threads; 12% free-running histories. Tiers: committed regressions, then scenario templates (every named class occurs in every run), then random histories. ";
+        let common = "generated operation histories on one Nucleo (1-4 worker threads, 1-3 columns, generated Config fixed per history): push / bulk push (crossing the 1024/2048 bucket boundaries) / writer threads held inside their fill callback (between index reservation and publication) / held extends / release, pattern edits (append char, delete last, replace, clear; append flag set exactly when the old text is a prefix), tick(0|1|10), restart(true|false), injector()/clone/drop (also on other threads), old injectors pushing, run held at / advanced to each of 8 phases through cfg-gated hook points (the last one: the spawned job after it released the lock, so that the next run is queued behind it), update_config, injector clone_from, reparse of the same text with other settings, scoring of one item held inside the parallel scan, adversarial ordering of in-flight pushes of two pool threads; 12% free-running histories. Tiers: committed regressions, then scenario templates (every named class occurs in every run), then random histories. ";
         let specific = match self.id {
             "C06" => "Oracle after every tick/restart: every match refers to an initialised item with intact canary, no duplicates, one stream, score == snapshot pattern's score on a fresh matcher, order (score desc, length asc, index asc / insertion order for the empty pattern), matched_items/get_matched_item agree, item_count consistent with a processed set, no uninitialised dereference (hooked get_unchecked). Non-trivial: history with a tick while a writer is in flight, a cancelled/held run, or an append-update.",
             "C07" => "Every history ends by releasing all writers, dropping all injectors and ticking until running == false; the snapshot must equal the from-scratch result (fresh MultiPattern + fresh Matcher over all published items of the current stream; same count, matches, scores, order). Non-trivial: quiescent history with an append-update, a held/cancelled run or an item published after being seen in flight, whose final pattern matches a proper non-empty subset.",
-            "C12" => "Oracle: items carry their stream number; one stream per snapshot; restart(true) empties the snapshot immediately; after restart(false) the snapshot stays identical until it switches to the new stream; items of old injectors never appear; old injectors keep working. Non-trivial: restart while a run is in progress, or an old injector pushing after the restart.",
+            "C12" => "Oracle: items carry their stream number; one stream per snapshot; restart(true) empties the snapshot immediately; after restart(false) the snapshot stays identical until it switches to the new stream, and it has switched once a tick finds the matcher idle; items of old injectors never appear; old injectors keep working. Non-trivial: restart while a run is in progress, or an old injector pushing after the restart.",
             "C19" => "Oracle: snapshot observed before and after every tick: changed == false implies identical (matches, item_count, pattern); running == false implies item_count >= pushes of the current stream completed before the call, snapshot pattern == matcher pattern, snapshot stream == current stream. Non-trivial: a tick returning running=false after a cancel or restart, or changed=false while a run is held.",
             _ => "Oracle: handle-counting model (live handles incl. clones held by writer threads, tagged with the stream they were created from) compared with active_injectors() after every operation. Non-trivial: a restart with a handle that outlives it, or a running tick after a restart.",
         };
